@@ -282,9 +282,9 @@ Multiply ==
   /\ st = "multiply"
   /\ sres' = [i \in 1..Len(sres) |-> Scale(sres[i], AnsCredit(ans[Len(ans)]))]
   /\ st' = "consol"
-  \* compare_evaluations has just logged the comparison data of all samples (a SingleListGrader does not hand its
-  \* debug log to its subgrader: nothing of the leaf is logged there)
-  /\ log' = IF SingleLike THEN log ELSE log \cup {"LOGCMP"}
+  \* compare_evaluations has just logged the comparison data of all samples, i.e. the standardized results with their
+  \* messages (a SingleListGrader does not hand its debug log to its subgrader: nothing of the leaf is logged there)
+  /\ log' = IF SingleLike THEN log ELSE log \cup {"LOGCMP"} \cup UNION {sres[i].m : i \in 1..Len(sres)}
   /\ UNCHANGED <<ch, cf, li, lf, ans, raw, altres, items, grp, res, vd>>
 
 ConsolidateSamples ==
